@@ -297,6 +297,12 @@ func c13r3(c *Ctx) {
 				ob.OK("dominated by a non-nil test")
 				continue
 			}
+			// or: followed per path (tests of the pointer, of a flag computed from it, allocations, assignments of nil
+			// on failure exits), the pointer is non-nil on every feasible path that arrives here
+			if mayBeNil, _, tracked := f.NilAt(n, v); tracked && !mayBeNil {
+				ob.OK("non-nil on every feasible path")
+				continue
+			}
 			// or: every reaching definition at the dereference is a fresh allocation
 			fresh := true
 			for _, def := range ReachingDefs(f, v, n) {
@@ -564,8 +570,41 @@ func c13r8(c *Ctx) {
 			}
 		}
 	}
+	// the other correct form: a counting loop whose condition re-reads the list's length on every iteration
+	// (`for i := 0; i < len(S); i++` with the body appending to S) visits what it appends
+	for _, f := range r.vs.Roots {
+		for _, fn := range append([]*ir.Func{f}, f.Lits...) {
+			ir.Walk(fn.Body, false, func(x ast.Node) {
+				fs, ok := x.(*ast.ForStmt)
+				if !ok || fs.Cond == nil {
+					return
+				}
+				be, ok := ast.Unparen(fs.Cond).(*ast.BinaryExpr)
+				if !ok || be.Op != token.LSS {
+					return
+				}
+				S := lenOf(fn, be.Y)
+				if S == nil || !simpleLvalue(S) {
+					return
+				}
+				for _, w := range fn.WritesIn(fs.Body, false) {
+					if !sameLvalue(fn, w.LHS, S) || w.RHS == nil {
+						continue
+					}
+					if ac, ok := ast.Unparen(w.RHS).(*ast.CallExpr); ok && len(ac.Args) >= 2 {
+						if id, ok := ac.Fun.(*ast.Ident); ok && id.Name == "append" && sameLvalue(fn, ac.Args[0], S) {
+							n++
+							c.VisitGraph(fn)
+							c.Ob(fn, "growing-worklist-iterated-to-fixpoint", fs.Pos()).OK("counting loop bounded by the live length of %s", ir.ExprString(S))
+							return
+						}
+					}
+				}
+			})
+		}
+	}
 	if n == 0 {
-		ir.Fail("no worklist loop (range over a list the body appends to) found in package chain")
+		ir.Fail("no worklist loop (a loop over a list the body appends to) found in package chain")
 	}
 }
 
